@@ -91,7 +91,7 @@ def main():
     for key, text, path in unlisted[:20]:
         print("VIOLATION property=C20 replay=%s" % path)
         print("  key=%s :: %s" % (key, text))
-    n_items = 120 * 2 + 6 + 20 * 2 + 2 + 2 + 6 + 2 + 2
+    n_items = 120 * 2 + 6 + 20 * 2 + 2 + 2 + 6 + 2 + 2 + 12
     ev = {
         "property_id": "C20", "tier": tier, "seed": int(os.environ.get("VERIF_SEED", "0") or 0), "level": "other",
         "coverage": {
